@@ -241,7 +241,8 @@ static void exec_op(op_t *op) {
 	case K_GATE: {
 		logev(EV_CALL, op->id, -1, op->kind);
 		atomic_fetch_add(&gate_waiters[op->a], 1);
-		flag_wait(&gate_open[op->a]);
+		if (op->b & 1) { while (!atomic_load(&gate_open[op->a])) sched_yield(); }      // spinning variant: the waiter continues within microseconds of the opening
+		else flag_wait(&gate_open[op->a]);
 		atomic_fetch_sub(&gate_waiters[op->a], 1);
 		logev(EV_RET, op->id, -1, 0);
 		break; }
